@@ -104,3 +104,5 @@ SPEC = {'id': 'C12',
 
 SPEC['rule'] += (' Added after the seeded-change rounds: ' +
     'Bodies above 64 KiB; client counts up to 2^63-1 (not only below 2^53); JSON null / number / array in place of every string member; fingerprints with non-hex bytes at every position.')
+
+SPEC['thorough_passes'] = 3  # the thorough tier runs the whole harness under this many consecutive seeds
